@@ -109,11 +109,28 @@ CONFIG = {
             "masking: the marker occurs only in values of tokens whose key is exactly 'password'; keys such as Password/pwd are outside the statement",
         ],
     },
+    "C16": {
+        "level": "exploration",
+        "rule": "C16: stateful histories on the log-sink zip sender with a recording client that retains packs; model of the flush rule; queue mode with the real run loop; built-in defaults.",
+        "groups": [G("c16", shards={"quick": 4, "thorough": 16}, timeout={"quick": 300, "thorough": 2400})],
+        "assumptions": [
+            "record times are positive and non-decreasing (time 0 is the sender's 'no batch open' sentinel); wait time >= 1 ms",
+            "records still in the queue at the instant of stop are not required to be emitted: the harness waits for the queue to drain before stopping",
+            "ApplyConfig with a configuration that lacks the keys is not exercised (its own fall-back values differ from the built-in defaults; the statement is ambiguous there)",
+            "queue mode uses real time for the idle time-out (20-50 ms); the only wall-clock bound is the 30 s drain guard",
+            "uses the verif hooks zip.NewForVerif / FlushForVerif / StopForVerif / SettingsForVerif / ResetInstanceForVerif",
+        ],
+    },
 }
 
 NOT_APPLICABLE = {}
 
 MANIFEST_TEXT = {
+    "C16": {
+        "technique": "stateful property-based testing: generated append/send-direct/flush histories against a model of the flush rule, exactly-once/in-order accounting, retained-pack aliasing oracle; concurrent producers with the real run loop",
+        "level_text": "Generated-history exploration: hundreds to tens of thousands of histories with generated settings; every emitted pack is decoded (gunzip iff flagged), its record count, compression decision and batch boundary compared with the model, the concatenated stream compared record by record with what was handed in, and every retained pack re-serialised at the end to detect later alteration. Queue-mode cases run the real goroutine with 1-4 producers and a schedule-independent oracle.",
+        "level_note": "The goroutine schedule in queue mode is whatever the Go scheduler does; the oracle is sound for any schedule but a violation needing a narrow interleaving may be missed.",
+    },
     "C07": {
         "technique": "property-based testing: metamorphic field-perturbation oracle for writer/reader agreement per version, stateful pool histories with poison values, generated connection strings for masking; exhaustive type x gate-version grid",
         "level_text": "Generated-input exploration: for every UDP pack type and every protocol version next to a gate the set of fields a version carries is learnt from the writer by perturbing one field at a time, and the reader must restore exactly those fields, consume exactly the bytes and re-encode identically; acquire/fill/release histories check that pooled packs carry no residue; thousands of generated connection strings check that no password value survives Process().",
